@@ -6,11 +6,16 @@
    Proved here, for EVERY order state, argument combination and tester state: the arithmetic constraints,
    ExecID freshness over every history of calls, OrderID reuse, the tag set, the copied values, the
    cancel-reject shape, and that a consistent order stays consistent in the closed loop helper -> order.
-   NOT proved here (decided by the harness oracle on the real code, differential): validity against
-   the FIX 4.4 dictionary (real FIXSchema.validate) and session fidelity of the simulated acceptor.
+   Dictionary validity (last section): the model's messages are accepted by C15's model of FIXSchema.validate
+   on the REGENERATED FIX 4.4 dictionary with C19's model of validate_value as the value check (validate44,
+   Fix/TesterSchema.v) - session factories and cancel rejects for all argument values of the stated domains,
+   execution reports for every renderer of numbers that stays in the finite FIX float layout, instantiated with
+   the exact binary-fraction printer print_q.  The harness keeps deciding the same claim on the real
+   FIXSchema.validate.  NOT proved (differential only): session fidelity of the simulated acceptor.
    Refuted parts are the *_refuted theorems; each is a known-finding class of harness/c20.py. *)
 From Coq Require Import ZArith NArith List Bool Sorting.Sorted.
-From AF Require Import Base.Sx Py.Str Fix.OrderStatus Fix.Tester Lemmas.TesterL.
+From AF Require Import Base.Sx Py.Str Fix.OrderStatus Fix.Tester Fix.TesterSchema Lemmas.TesterL Lemmas.TesterSchemaL.
+From AF Require Fix.Lex.
 Import ListNotations.
 Open Scope Z_scope.
 
@@ -272,3 +277,83 @@ Example C20_nonvacuous_closed_loop :
   = [(Some [49%N], Some [49;48;48;48;49]%N); (Some [49%N], Some [49;48;48;48;50]%N); (Some [49%N], Some [49;48;48;48;51]%N)].
 Proof. exact drive_witness. Qed.
 Print Assumptions C20_nonvacuous_closed_loop.
+
+(* ================================================================ validity against the FIX 4.4 dictionary *)
+(* validate44 m = SchemaModel.validate value_check44 GenSchema.FIX44.schema m, where value_check44 runs C19's
+   validate_value model on the entry of C19's regenerated table for the same tag (Fix/TesterSchema.v);
+   render pr mt m = the FIXMessage with MsgType mt, tag texts str(tag), numbers printed by pr. *)
+
+(* the two regenerated tables describe the same fields: same type name, same has-enum flag, for all 912 *)
+Example C20_tables_agree : forallb field_agrees GenSchema.FIX44.fields = true.
+Proof. exact tables_agree. Qed.
+Print Assumptions C20_tables_agree.
+
+(* session message factories: msg_logon (default tags), msg_logout, msg_heartbeat (no id / any valid String id /
+   str(z) for every integer z), msg_test_request (any valid String id), msg_sequence_reset (all 0 < n, new < 10^4300,
+   both flags), msg_resend_request (all 0 < begin < 10^4300, 0 <= end < 10^4300); 10^4300 = CPython's int() digit
+   limit, beyond which the library's own validator refuses the text.  All-values proofs except the three closed
+   messages (by computation). *)
+Theorem C20_session_factories_validate :
+  validate44 (render0 (msg_logon [])) = SM.Ok /\
+  validate44 (render0 msg_logout) = SM.Ok /\
+  validate44 (render0 (msg_heartbeat None)) = SM.Ok /\
+  (forall s, valid_string s = true -> validate44 (render0 (msg_heartbeat (Some s))) = SM.Ok) /\
+  (forall z, validate44 (render0 (msg_heartbeat (Some (z_to_dec z)))) = SM.Ok) /\
+  (forall s, valid_string s = true -> validate44 (render0 (msg_test_request s)) = SM.Ok) /\
+  (forall n new g, seq_ok n -> seq_ok new -> validate44 (render0 (msg_sequence_reset n new g)) = SM.Ok) /\
+  (forall b e, seq_ok b -> (0 <= e < Z.of_N INT_LIMIT)%Z -> validate44 (render0 (msg_resend_request b e)) = SM.Ok).
+Proof. exact session_factories_validate. Qed.
+Print Assumptions C20_session_factories_validate.
+
+(* cancel reject: every valid String ClOrdID / OrigClOrdID (non-empty, no SOH, no '='), every OrdStatus of the
+   dictionary (= FOrdStatus member other than CREATED), both request kinds *)
+Theorem C20_cancel_reject_validates : forall mt c og st m,
+  fix_cxlrep_reject_msg mt (Some c) (Some og) st = ROk m ->
+  valid_string c = true -> valid_string og = true -> fix_status st = true ->
+  validate44 (render no_numbers [57%N] m) = SM.Ok.
+Proof. exact cancel_reject_validates. Qed.
+Print Assumptions C20_cancel_reject_validates.
+
+(* execution report: every accepted call whose texts are valid Strings, whose ExecType / OrdStatus / Side are
+   dictionary values (exec_valid) and whose numbers are rendered inside the finite FIX float layout validates -
+   for ANY renderer pr (partial: the rendering of numbers is the hypothesis) ... *)
+Theorem C20_exec_report_validates_partial : forall pr u t o a m t',
+  fix_exec_report_msg u t o a = Ok m t' -> exec_valid o a -> numbers_ok pr m ->
+  validate44 (render pr [56%N] m) = SM.Ok.
+Proof. exact exec_report_validates. Qed.
+Print Assumptions C20_exec_report_validates_partial.
+
+(* ... the exact decimal expansion of z / 2^k (what str(float) prints for the binary fractions of the harness's
+   exact stream) is such a rendering whenever the integer part is below float()'s overflow threshold ... *)
+Theorem C20_printer_is_finite_fix_float : forall k z,
+  printable k z -> Lex.lex_float (print_q k z) = true /\ Lex.float_overflows (print_q k z) = false.
+Proof. exact print_q_float_ok. Qed.
+Print Assumptions C20_printer_is_finite_fix_float.
+
+(* ... hence: *)
+Theorem C20_exec_report_validates_printed : forall k u t o a m t',
+  fix_exec_report_msg u t o a = Ok m t' -> exec_valid o a -> numbers_printable k m ->
+  validate44 (render (print_q k) [56%N] m) = SM.Ok.
+Proof. exact exec_report_validates_printed. Qed.
+Print Assumptions C20_exec_report_validates_printed.
+
+Example C20_exec_report_validates_nonvacuous :
+  exists m t', fix_exec_report_msg 4096 w_state w_live w_fill = Ok m t' /\
+    validate44 (render (print_q 12) [56%N] m) = SM.Ok /\
+    get_tag_text (render (print_q 12) [56%N] m) [51;50]%N = Some [50;46;48;48;48;52;56;56;50;56;49;50;53]%N.
+Proof. exact exec_report_validates_witness. Qed.
+Print Assumptions C20_exec_report_validates_nonvacuous.
+
+(* a rendering outside the layout (str(float) below 1e-4: "1e-05") is refused   [finding C20-float-notation] *)
+Theorem C20_float_notation_refuted :
+  exists m t', fix_exec_report_msg 4096 w_state w_live w_fill = Ok m t' /\
+    validate44 (render exponent_text [56%N] m) = SM.Exc SM.EFIXMessage.
+Proof. exact exponent_text_refused. Qed.
+Print Assumptions C20_float_notation_refuted.
+
+(* OrdStatus "Z" is refused by the dictionary   [finding C20-status-created, see C20_status_created_refuted] *)
+Theorem C20_status_created_invalid_refuted :
+  exists m t', fix_exec_report_msg 4096 w_state w_order (w_args (o_clord w_order) NEW CREATED None None) = Ok m t' /\
+    validate44 (render (print_q 12) [56%N] m) = SM.Exc SM.EFIXMessage.
+Proof. exact created_status_refused. Qed.
+Print Assumptions C20_status_created_invalid_refuted.
